@@ -1715,6 +1715,62 @@ func (c *chessCtx) checkC17(o *Obs, fen string, pFen, pPath *position.Position) 
 		e := o.San[len(o.San)/2]
 		c.res.sample("C17", map[string]interface{}{"fen": fen, "move": mvUci(e.M), "san": sanString(e.San, true, "", true)})
 	}
+	// the same generator object after it has been USED for something else: legal moves of this position in captures-only mode,
+	// of another position, of this position on its path-built twin - the readers must still answer for the position they are given
+	if len(o.Legal) > 0 && (len(o.Path) == 0 || c.res.Counters["C17.nodes"]%4 == 0) {
+		other := position.NewPosition()
+		for step := 0; step < 3; step++ {
+			guard(func() {
+				switch step {
+				case 0:
+					mg.GenerateLegalMoves(pFen, movegen.GenNonQuiet)
+				case 1:
+					mg.GenerateLegalMoves(other, movegen.GenAll)
+				case 2:
+					mg.GeneratePseudoLegalMoves(other, movegen.GenAll, false)
+					mg.HasLegalMove(other)
+				}
+			})
+			for k, m := range o.Legal {
+				if (k+step)%3 != 0 && len(o.Legal) > 6 {
+					continue
+				}
+				var got Move
+				guard(func() { got = mg.GetMoveFromUci(pFen, mvUci(m)) })
+				c.res.count("C17.uci_roundtrips_used_generator", 1)
+				if got == MoveNone || specMove(got) != m {
+					c.disc("C17", "uci-roundtrip", "uci-roundtrip/used-generator", o, fen, map[string]string{"text": mvUci(m), "parsed": got.StringUci(), "generator_used_for": []string{"captures of the same position", "another position", "pseudo-legal moves of another position"}[step]})
+				}
+				guard(func() {
+					switch step {
+					case 0:
+						mg.GenerateLegalMoves(pFen, movegen.GenNonQuiet)
+					case 1:
+						mg.GenerateLegalMoves(other, movegen.GenAll)
+					}
+				})
+				if sc, ok := sanOf[m]; ok {
+					text := sanString(sc, true, "", true)
+					guard(func() { got = mg.GetMoveFromSan(pFen, text) })
+					if got == MoveNone || specMove(got) != m {
+						c.disc("C17", "san-roundtrip", "san-roundtrip/used-generator", o, fen, map[string]string{"san": text, "expected": mvUci(m), "parsed": got.StringUci()})
+					}
+				}
+				guard(func() {
+					if step == 1 {
+						mg.GenerateLegalMoves(other, movegen.GenAll)
+					} else {
+						mg.GenerateLegalMoves(pFen, movegen.GenNonQuiet)
+					}
+				})
+				var v bool
+				guard(func() { v = mg.ValidateMove(pFen, engineMove(m, kindOf[m])) })
+				if !v {
+					c.disc("C17", "validate-move", "validate-move/used-generator", o, fen, map[string]interface{}{"move": mvUci(m), "engine": v, "rules": true})
+				}
+			}
+		}
+	}
 }
 
 // ------------------------------------------------------------------------------------- finish
